@@ -39,6 +39,7 @@ impl Cfg {
             "cycle3" => "cycle3",
             "mutual-deep" => "mutual-deep",
             "static" => "static",
+            "fanout" => "fanout",
             _ => "none",
         };
         Cfg {
@@ -54,6 +55,7 @@ impl Cfg {
 static COMPLETED: AtomicU64 = AtomicU64::new(0);
 /// number of event messages the reloader has handled, as published by the burst thread
 static HANDLED: AtomicU64 = AtomicU64::new(0);
+static FANOUT_LOADS: AtomicU64 = AtomicU64::new(0);
 static IN_CALL: AtomicI64 = AtomicI64::new(0);
 static CALLER_TIDS: Mutex<Vec<i32>> = Mutex::new(Vec::new());
 static IN_CALL_TIDS: Mutex<Vec<i32>> = Mutex::new(Vec::new());
@@ -160,6 +162,13 @@ fn child(args: &Args, mut rep: Report, cfg: &Cfg) -> Report {
             mem.write("m.b", "n0", b"load L10t shared.s0 peek N0 m.a");
             mem.write("m.d", "n0", b"peek N0 m.b load L10t shared.s1");
         }
+        // every caller owns a compound whose reloads load 60..220 assets that were never loaded
+        // before: the reloader thread then registers assets with itself while it is reloading
+        "fanout" => {
+            for i in 0..cfg.callers {
+                mem.write(&format!("fan.n{i}"), "n0", b"load L10t shared.s0");
+            }
+        }
         _ => {}
     }
     // "static": the documented combination enhance_hot_reloading() + hot_reload()
@@ -174,6 +183,11 @@ fn child(args: &Args, mut rep: Report, cfg: &Cfg) -> Report {
         &owned
     };
     let mut shape_keys = vec![];
+    let fan_nodes: Vec<_> = if cfg.shape == "fanout" {
+        (0..cfg.callers).map(|i| cache.load::<Node<0>>(&format!("fan.n{i}")).expect("fan node")).collect()
+    } else {
+        vec![]
+    };
     if cfg.shape != "none" && cfg.shape != "static" {
         for id in ["m.a", "m.b", "m.c", "m.d", "m.a", "m.b"] {
             if mem.get(id, "n0").is_some() {
@@ -199,6 +213,8 @@ fn child(args: &Args, mut rep: Report, cfg: &Cfg) -> Report {
             let (cache, mem, done, max_inside, rounds_overlapped, stale) = (cache, &mem, &done, &max_inside, &rounds_overlapped, &stale);
             let h = handles[i];
             let shape = cfg.shape;
+            let fan = fan_nodes.get(i).copied();
+            let mut fr = base.sub(500 + i as u64);
             callers.push(s.spawn(move || {
                 #[cfg(not(miri))]
                 let tid = procfs::gettid();
@@ -210,7 +226,20 @@ fn child(args: &Args, mut rep: Report, cfg: &Cfg) -> Report {
                     let content = leaf_content(i, g);
                     mem.write(&id, "a", content.as_bytes());
                     mem.notify_file(&id, "a");
-                    if shape != "none" && shape != "static" && g % 3 == 0 {
+                    let mut fan_want = None;
+                    if shape == "fanout" && g % 4 == 0 {
+                        let n = fr.range(60, 220);
+                        let mut recipe = String::new();
+                        for j in 0..n {
+                            let lid = format!("fan.c{i}g{g}x{j}");
+                            mem.write(&lid, "a", b"f");
+                            recipe.push_str(&format!("load L10t {lid} "));
+                        }
+                        mem.write(&format!("fan.n{i}"), "n0", recipe.as_bytes());
+                        mem.notify_file(&format!("fan.n{i}"), "n0");
+                        fan_want = Some(n);
+                    }
+                    if shape != "none" && shape != "static" && shape != "fanout" && g % 3 == 0 {
                         // touch the cyclic part of the graph too
                         mem.write("shared.s0", "a", format!("shared0-{i}-{g}").as_bytes());
                         mem.notify_file("shared.s0", "a");
@@ -239,6 +268,13 @@ fn child(args: &Args, mut rep: Report, cfg: &Cfg) -> Report {
                     let want = V::Leaf { ext: "a".into(), len: content.len(), hash: content_hash(content.as_bytes()) };
                     if v != want {
                         stale.lock().unwrap().push(json!({"caller": i, "generation": g, "read_after_return": format!("{v:?}"), "expected": format!("{want:?}")}));
+                    }
+                    if let (Some(n), Some(f)) = (fan_want, fan) {
+                        let got = f.read().trace.len();
+                        if got != n {
+                            stale.lock().unwrap().push(json!({"caller": i, "generation": g, "fan_node_loads_after_return": got, "expected": n}));
+                        }
+                        FANOUT_LOADS.fetch_add(n as u64, SeqCst);
                     }
                 }
                 let _ = done;
@@ -315,6 +351,7 @@ fn child(args: &Args, mut rep: Report, cfg: &Cfg) -> Report {
     rep.evaluations += completed;
     rep.count("hot_reload_calls_completed", completed);
     rep.count("rounds_with_2plus_callers_inside", rounds_overlapped.load(SeqCst));
+    rep.count("new_assets_loaded_inside_reloads", FANOUT_LOADS.load(SeqCst));
     rep.set_max("max_callers_inside_simultaneously", max_inside.load(SeqCst) as u64);
     let stale = stale.into_inner().unwrap();
     if !stale.is_empty() {
@@ -351,6 +388,8 @@ pub fn configs(args: &Args) -> Vec<Cfg> {
     }
     v.push(Cfg { callers: 1, loaders: 0, bursts: false, calls: (n(300, 3000) as f64 * args.scale) as usize + 10, shape: "static" });
     v.push(Cfg { callers: 4, loaders: 2, bursts: true, calls: (n(300, 3000) as f64 * args.scale) as usize + 10, shape: "static" });
+    v.push(Cfg { callers: 1, loaders: 0, bursts: false, calls: (n(120, 1200) as f64 * args.scale) as usize + 8, shape: "fanout" });
+    v.push(Cfg { callers: 3, loaders: 2, bursts: true, calls: (n(120, 1200) as f64 * args.scale) as usize + 8, shape: "fanout" });
     for shape in ["mutual", "self", "cycle3", "mutual-deep"] {
         v.push(Cfg { callers: 2, loaders: 1, bursts: false, calls: (n(600, 6000) as f64 * args.scale) as usize + 10, shape });
         if t {
